@@ -16,6 +16,17 @@ Theorem versions_consecutive_write_once : forall ops : list op,
 Proof. exact Lemmas.versions_consecutive_write_once. Qed.
 Print Assumptions versions_consecutive_write_once.
 
+(* registrations interleaved with saves: at every moment a save uses the most specific registered class of the MRO and
+   the newest version registered for it so far *)
+Theorem save_uses_newest_at_every_moment : forall (ops : list op) (mro : list Z) t x v,
+  let d := final ops in
+  save_lookup d mro = Some (t, RPair x v) ->
+  exists pre post vs, mro = pre ++ t :: post /\ (forall t', In t' pre -> lookup t' d = None)
+    /\ lookup t d = Some vs /\ v = Z.of_nat (List.length vs) /\ stored d t v = Some x
+    /\ (forall v' x', stored d t v' = Some x' -> v' <= v).
+Proof. exact Lemmas.save_uses_newest_at_every_moment. Qed.
+Print Assumptions save_uses_newest_at_every_moment.
+
 Theorem registry_consecutive :
   (forall r, In r savers -> s_versions r = zseq 1 (List.length (s_versions r)) /\ s_versions r <> [])
   /\ (forall r, In r loaders -> l_versions r = zseq 1 (List.length (l_versions r)) /\ l_versions r <> []).
